@@ -207,6 +207,9 @@ package css
 //@   ensures[F,C07] @numeric: ite(cssNumEnd(l.r.buf, old(l.r.pos)) == old(l.r.pos), result == ErrorToken && l.r.pos == old(l.r.pos),
 //@        ite(l.r.buf[cssNumEnd(l.r.buf, old(l.r.pos))] == '%', result == PercentageToken && l.r.pos == cssNumEnd(l.r.buf, old(l.r.pos)) + 1,
 //@        ite(l.r.pos > cssNumEnd(l.r.buf, old(l.r.pos)), result == DimensionToken, result == NumberToken && l.r.pos == cssNumEnd(l.r.buf, old(l.r.pos)))))
+// a number is a dimension exactly when an identifier (in any spelling: letters, '-', non-ASCII, escapes) starts right after it,
+// and the unit is that whole identifier
+//@   ensures[F,C07,local] @unit: cssNumEnd(l.r.buf, old(l.r.pos)) != old(l.r.pos) && l.r.buf[cssNumEnd(l.r.buf, old(l.r.pos))] != '%' ==> (result == DimensionToken <==> identBody(l.r.buf, cssNumEnd(l.r.buf, old(l.r.pos))) != 0) && (result == DimensionToken ==> l.r.pos == nameEnd(l.r.buf, identBody(l.r.buf, cssNumEnd(l.r.buf, old(l.r.pos)))))
 //@   ensures[S]  @kind: result == ErrorToken || result == PercentageToken || result == DimensionToken || result == NumberToken
 //@   preserves[S] lexStep(l)
 //@   ensures[S]  result == ErrorToken ==> l.r.pos == old(l.r.pos)
